@@ -76,6 +76,7 @@ class BpNode(object):
         self.cfg = cfg
         self.cl = FakeCl(sim)
         self.observed = []  # dicts
+        self.observed_ctrs = []  # the containers themselves, same order
         with sim.as_node(name):
             self.agent = bp.agent.Agent(cfg, bus_kwargs=dict(conn=cfg.bus_conn, object_path='/org/ietf/dtn/bp/Agent'))
         self.agent._cl_agent['fake'] = self.cl
@@ -96,6 +97,7 @@ class BpNode(object):
             data = blk.getfieldval('btsd')
             blocks.append((int(blk.getfieldval('type_code')), blk.getfieldval('block_num'), int(blk.getfieldval('block_flags')),
                            bytes(data) if data is not None else None))
+        self.observed_ctrs.append(ctr)
         self.observed.append(dict(
             event_no=self.sim.world.event_no,
             ident=ctr.bundle_ident(),
